@@ -17,7 +17,7 @@ func init() {
 	Registry["C12"] = c12
 	Metas["C12"] = Meta{Level: "other", NeedCG: true,
 		Technique: "static analysis: must-send-exactly-once path check on hook listeners, blocking-send reachability from the consensus goroutine over the VTA call graph, lock-order graph, finite-domain decision tables of the timeout staleness tests, must-schedule dominance",
-		Explain: "Liveness (termination under fair schedules) is not statically decidable here; decided instead are the structural ways this node can wedge itself. (R1) every hook listener that owes a reply sends exactly once on the event's ResCh on every path, the reply channels have capacity >= 1, and default listeners are installed when no application hooked; (R2) no blocking channel send on the consensus goroutine's own input queues is reachable (without `go`) from handleMsg/handleTimeout, and the ticker routine never blocks outside its select; (R3) the lock-order graph over the named mutexes reachable from the consensus and gossip routines is acyclic; (R4) the staleness decision tables of handleTimeout (27 states), timeoutRoutine (81 states) and CompareHRS (27 states) equal their specifications, exhaustively; handleTimeout dispatches each step to the right transition; (R5) every wait step schedules its own timeout on all paths and the height epilogue schedules round 0. (R6) defaultSetProposal rejects a proposal for its POLRound exactly outside {-1} ∪ [0, Round). NOT decided: termination, fairness, gossip completeness.",
+		Explain: "Liveness (termination under fair schedules) is not statically decidable here; decided instead are the structural ways this node can wedge itself. (R1) every hook listener that owes a reply sends exactly once on the event's ResCh on every path, the reply channels have capacity >= 1, and default listeners are installed when no application hooked; (R2) no blocking channel send on the consensus goroutine's own input queues is reachable (without `go`) from handleMsg/handleTimeout, and the ticker routine never blocks outside its select; (R3) the lock-order graph over the named mutexes reachable from the consensus and gossip routines is acyclic; (R4) the staleness decision tables of handleTimeout (27 states), timeoutRoutine (81 states) and CompareHRS (27 states) equal their specifications, exhaustively; handleTimeout dispatches each step to the right transition; (R5) every wait step schedules its own timeout on all paths and the height epilogue schedules round 0. (R6) defaultSetProposal rejects a proposal for its POLRound exactly outside {-1} ∪ [0, Round). (R7) round timeouts evaluate to (base+delta*round) ms for sample configurations (symbolic evaluation of the return expression); (R8) the vote gossip serves every lag (0, 1, >=2) of a peer. NOT decided: termination, fairness, gossip completeness.",
 		Assume: []string{"Go runtime scheduling is fair", "time.Timer fires"},
 	}
 }
